@@ -94,8 +94,16 @@ void CSVParser<IndexType, DType>::ParseBlock(
     while (p != lend) {
       char *endptr;
       DType v;
-      // if DType is float32
-      if (std::is_same<DType, real_t>::value) {
+      // a cell with nothing but white space up to the line end is a missing value; strtof/strtoll
+      // would skip the end-of-line characters as white space and convert the next line's first cell
+      const char *cell = p;
+      while (cell != lend && (isspace(*cell) || *cell == '\v')) {
+        ++cell;
+      }
+      if (cell == lend) {
+        v = DType(0);
+        endptr = const_cast<char *>(p);
+      } else if (std::is_same<DType, real_t>::value) {  // if DType is float32
         v = strtof(p, &endptr);
         // If DType is int32
       } else if (std::is_same<DType, int32_t>::value) {
